@@ -28,4 +28,10 @@ DRIVERS = {
         "level_text": "All reachable drop-in states (per base ruleset the ordered list of tagged copies, hook priority list, counter) are visited for every base permission combination in the family; after every operation evaluation order, enablement, copy freshness, oomd.dropin.added, hook priority and private bookkeeping must equal the model, and removing a tag must give the same observation as never having added it (checked by running both histories on the real code).",
         "level_note": "Trusted: scripted plugins/hooks, reference model transcribed from docs/drop_in_configs.md and docs/prekill_hooks.md. The inotify/file layer that feeds the adaptor is C14's subject.",
     },
+    "C11": {
+        "sources": COMMON + ["props/c11.cpp"], "level": "model_checking", "engine": "E1",
+        "technique": "explicit-state BFS over cgroup create/remove/tag histories on the simulated cgroupfs through the real Oomd::run, one reference engine model per matching cgroup plus plugin-instance identity tracking",
+        "level_text": "Every reachable combination of (existing matching cgroups, tagged cgroups, per-instance pause/suspension) within the depth bound is visited with all scripted plugin answers; each matching cgroup must be evaluated exactly once per tick with itself as ruleset cgroup and action target, keep its plugin instances while it exists at every tick, get never-seen-before instances after an absent tick, receive prerun every tick, and pause/suspend independently; discards must be ASan-clean.",
+        "level_note": "Trusted: scripted plugins, simulated cgroupfs on tmpfs (real glob(3), real xattrs), reference model. Evaluation order among matching cgroups and instant re-creation inside one step are left open.",
+    },
 }
